@@ -40,6 +40,9 @@ pub fn run(o: &Opts) {
       let src = if rng.chance(1, 2) { format!("/* é日😀 */ {src}") } else { src };
       // a text may begin with a byte order mark: every front end must count it (or not) alike
       let src = if round % 3 == 1 { out.count("source:starts-with-BOM"); format!("\u{feff}{src}") } else { src };
+      // in the last round of a JavaScript / TypeScript language: fix rules whose matches NEST (see below)
+      let nested = round + 1 == rounds && matches!(lang, SupportLang::TypeScript | SupportLang::JavaScript);
+      let src = if nested { "console.log(console.log(1))\nlet ok = a && b && c\nfoo(foo(foo(2)), console.log(3))\n".to_string() } else { src };
       let g = corpus::parse(lang, &src);
       let nodes = corpus::all_nodes(g.root());
       let ing = harvest(lang, &nodes, &mut rng);
@@ -76,6 +79,15 @@ pub fn run(o: &Opts) {
         let fix = if rng.chance(1, 3) { "fix: FIXED\n" } else { "" };
         yamls.push(format!("id: r{i}\nlanguage: {lang}\nseverity: {sev}\nmessage: {}\nrule:\n  pattern: {}\n{fix}", serde_json::to_string(&msg).unwrap(), serde_json::to_string(&pt).unwrap()));
       }
+      // in the last round of a JavaScript / TypeScript language: fix rules whose matches NEST (a match inside the
+      // previous match of the same rule, a match of one fix rule inside the match of another): every front end
+      // lists all of them
+      let yamls = if nested {
+        out.count("layout:nested-matches-of-fix-rules");
+        vec![format!("id: r0\nlanguage: {lang}\nseverity: warning\nmessage: log $A\nrule:\n  pattern: console.log($A)\nfix: logger.debug($A)\n"),
+              format!("id: r1\nlanguage: {lang}\nseverity: error\nmessage: and\nrule:\n  pattern: $A && $B\nfix: $B && $A\n"),
+              format!("id: r2\nlanguage: {lang}\nseverity: info\nmessage: foo\nrule:\n  pattern: foo($$$A)\nfix: bar($$$A)\n")]
+      } else { yamls };
       let Some(rules) = load_rules(&yamls) else {
         out.count("rules:rejected");
         continue;
